@@ -7,7 +7,9 @@
  * (stable_sort, insertion_sort) or through tagged ints (key = x >> 4, tag = x & 15; merges, set operations, stable_partition, merge_sort).
  * Single-range algorithms run on exact-fit heap objects (SPLIT / MK); two-range algorithms on start-aligned blocks (EMK / TAIL).
  * The body of every harness is a macro B_<NAME>(L, ...) so that the quick group and its tier=thorough twin share one text.
- * solver=kissat everywhere: MiniSat needs minutes (or 30+ GB) on these permutation-shaped instances. */
+ * solver=kissat everywhere: MiniSat needs minutes (or 30+ GB) on these permutation-shaped instances.
+ * Second wave (end of the file): hm_* groups = the moving / permuting algorithms over the move-sensitive element type vf::Hm, ip_* groups =
+ * every predicate / comparator taking algorithm with callables returning int (truthy 2, 0x100, INT_MIN). */
 #include "vf_handler.h"
 typedef unsigned long ul;
 typedef struct vf_kt KT;
@@ -581,6 +583,8 @@ static _Bool ipredc(int p, int x) { return p == 0 ? (x & 2) != 0 : (p == 1 ? (x 
 /* tagged Hm input: key = v >> 4 symbolic (28 bits), tag = v & 15 = TAG0 + index < 15 (element identity; v == -1 is impossible) */
 #define HTIN(name, MAX, TAG0) VF_INPUT_ARR(HM, name##_in, (MAX) + 1); for (int vf_h_##name = 0; vf_h_##name <= (MAX); ++vf_h_##name) name##_in[vf_h_##name].v = (int)(((unsigned)name##_in[vf_h_##name].v & ~15u) | (unsigned)((TAG0) + vf_h_##name))
 #define HEQ(x, y) ((x).v == (y).v)
+/* a second exact-size heap copy of src[0..n) */
+#define MK2(T, name, src, n, MAX) T *name = (T *)VF_ALLOC((ul)(n) * sizeof(T)); for (int vf_i_##name = 0; vf_i_##name < (MAX); ++vf_i_##name) if (vf_i_##name < (n)) name[vf_i_##name] = src[vf_i_##name]
 static _Bool ipred(int p, int x) { return p == 0 || p == 3 ? (x & 2) != 0 : (p == 1 ? (x & 0x100) != 0 : x < 0); }   /* p == 3: x & 2 again, the driver's callable returns bool */
 /* comparator selector with the value 3 (a % 3) left out: 0..2 and 4 */
 #define SELC(c) VF_INPUT(unsigned char, c); VF_ASSUME(c <= 4 && c != 3)
@@ -720,7 +724,7 @@ static _Bool ipred(int p, int x) { return p == 0 || p == 3 ? (x & 2) != 0 : (p =
   VF_REACH(); }
 /* remove_if, partition on int (the Hm groups cover them too; here all three predicates over plain ints) */
 #define B_IP_REMOVE_PARTITION(L) { LEN(n, L); SEL(p, 0, 2); VF_INPUT(int, g); IN(int, a, L); \
-  SPLIT(p, 2) SPLIT(n, L) { MK(int, a, n, L); MK(int, b, n, L); int cnt = 0, w = 0, gb = 0, ga = 0; \
+  SPLIT(p, 2) SPLIT(n, L) { MK(int, a, n, L); MK2(int, b, a_in, n, L); int cnt = 0, w = 0, gb = 0, ga = 0; \
     FORK(k, L, n) { cnt += ipred(p, a_in[k]); gb += a_in[k] == g; } \
     int *r = ip_remove_if(a, a + n, p); \
     FORK(k, L, n) if (!ipred(p, a_in[k])) { VF_ASSERT(a[w] == a_in[k], "remove_if keeps exactly the elements with pred(x) == 0, in order"); ++w; } \
@@ -730,58 +734,63 @@ static _Bool ipred(int p, int x) { return p == 0 || p == 3 ? (x & 2) != 0 : (p =
     FORK(k, L, n) { ga += b[k] == g; VF_ASSERT(ipred(p, b[k]) == (k < cnt), "partition: pred(x) != 0 exactly on [first, ret)"); } \
     VF_ASSERT(ga == gb, "partition permutes: every value occurs as often as before"); } \
   VF_REACH(); }
-/* binary predicates returning int on one / two aligned ranges: adjacent_find, equal, mismatch, unique, unique_copy */
-#define B_IP_PAIRS(L) { LEN(n, L); LEN(m, L); SEL(p, 0, 1); IN(int, a, L); IN(int, c, L); \
-  SPLIT(p, 1) SPLIT(n, L) SPLIT(m, L) { MK(int, a, n, L); MK(int, c, m, L); int adj = n, mm = 0, e[(L) + 1], w = 0; int *r1, *r2; \
+/* binary predicates returning int on one range: adjacent_find, unique_copy, unique */
+#define B_IP_ADJACENT(L) { LEN(n, L); SEL(p, 0, 1); IN(int, a, L); \
+  SPLIT(p, 1) SPLIT(n, L) { MK(int, a, n, L); int adj = n, e[(L) + 1], w = 0; \
     for (int k = (L) - 2; k >= 0; --k) if (k + 1 < n && peq(p, a_in[k], a_in[k + 1])) adj = k; \
-    { _Bool go = 1; FORK(k, L, n) if (go && k < m && peq(p, a_in[k], c_in[k])) mm = k + 1; else go = 0; } \
     FORK(k, L, n) if (k == 0 || !peq(p, a_in[k - 1], a_in[k])) { e[w] = a_in[k]; ++w; } \
     VF_ASSERT(ip_adjacent_find(a, a + n, p) == a + adj, "adjacent_find(pred) returns the first i with pred(*i, *(i + 1)) != 0, else last"); \
-    VF_ASSERT(ip_equal4(a, a + n, c, c + m, p) == (n == m && mm == n), "equal(f1, l1, f2, l2, pred): same length and pred != 0 for every pair"); \
-    ip_mismatch4(a, a + n, c, c + m, p, &r1, &r2); \
-    VF_ASSERT(r1 == a + mm && r2 == c + mm, "mismatch(f1, l1, f2, l2, pred) returns the first pair with pred == 0 (or the end of the shorter range)"); \
-    if (m >= n) { VF_ASSERT(ip_equal3(a, a + n, c, p) == (mm == n), "equal(f1, l1, f2, pred): pred != 0 for every pair"); \
-      ip_mismatch3(a, a + n, c, p, &r1, &r2); VF_ASSERT(r1 == a + mm && r2 == c + mm, "mismatch(f1, l1, f2, pred) returns the first pair with pred == 0"); } \
     SPLIT(w, L) { OUT(int, d, w); VF_ASSERT(ip_unique_copy(a, a + n, d, p) == d + w, "unique_copy(pred) returns the end of the output range"); \
       FORK(k, L, w) VF_ASSERT(d[k] == e[k], "unique_copy(pred) copies the first element of every group of consecutive equivalent elements"); \
       FORK(k, L, n) VF_ASSERT(a[k] == a_in[k], "the non-modifying / copying algorithms leave the source unchanged"); \
       VF_ASSERT(ip_unique(a, a + n, p) == a + w, "unique(pred) returns the end of the resulting range"); \
       FORK(k, L, w) VF_ASSERT(a[k] == e[k], "unique(pred) keeps the first element of every group of consecutive equivalent elements"); } } \
   VF_REACH(); }
-/* comparators returning int on one range: is_sorted, is_sorted_until, min/max/minmax_element; on two: lexicographical_compare */
-#define B_IP_ORDER(L) { LEN(n, L); LEN(m, L); SEL(c, 0, 2); IN(int, a, L); IN(int, b, L); \
-  SPLIT(c, 2) SPLIT(n, L) SPLIT(m, L) { MK(int, a, n, L); MK(int, b, m, L); int su = n, mn = 0, mx = 0, mxl = 0; int *lo, *hi; _Bool lex = 0, dec = 0; \
+/* binary predicates returning int on two ranges: equal, mismatch (3- and 4-iterator forms) */
+#define B_IP_EQUAL(L) { LEN(n, L); LEN(m, L); SEL(p, 0, 1); IN(int, a, L); IN(int, b, L); \
+  SPLIT(p, 1) SPLIT(n, L) SPLIT(m, L) { MK(int, a, n, L); MK(int, b, m, L); int mm = 0; int *r1, *r2; \
+    { _Bool go = 1; FORK(k, L, n) if (go && k < m && peq(p, a_in[k], b_in[k])) mm = k + 1; else go = 0; } \
+    VF_ASSERT(ip_equal4(a, a + n, b, b + m, p) == (n == m && mm == n), "equal(f1, l1, f2, l2, pred): same length and pred != 0 for every pair"); \
+    ip_mismatch4(a, a + n, b, b + m, p, &r1, &r2); \
+    VF_ASSERT(r1 == a + mm && r2 == b + mm, "mismatch(f1, l1, f2, l2, pred) returns the first pair with pred == 0 (or the end of the shorter range)"); \
+    if (m >= n) { VF_ASSERT(ip_equal3(a, a + n, b, p) == (mm == n), "equal(f1, l1, f2, pred): pred != 0 for every pair"); \
+      ip_mismatch3(a, a + n, b, p, &r1, &r2); VF_ASSERT(r1 == a + mm && r2 == b + mm, "mismatch(f1, l1, f2, pred) returns the first pair with pred == 0"); } \
+    FORK(k, L, n) VF_ASSERT(a[k] == a_in[k], "non-modifying algorithms leave range 1 unchanged"); FORK(k, L, m) VF_ASSERT(b[k] == b_in[k], "non-modifying algorithms leave range 2 unchanged"); } \
+  VF_REACH(); }
+/* comparators returning int on one range: is_sorted, is_sorted_until, min / max / minmax_element */
+#define B_IP_ORDER(L) { LEN(n, L); SEL(c, 0, 2); IN(int, a, L); \
+  SPLIT(c, 2) SPLIT(n, L) { MK(int, a, n, L); int su = n, mn = 0, mx = 0, mxl = 0; int *lo, *hi; \
     for (int k = (L) - 1; k >= 1; --k) if (k < n && lt(c, a_in[k], a_in[k - 1])) su = k; \
     FORK(k, L, n) { if (lt(c, a_in[k], a_in[mn])) mn = k; if (lt(c, a_in[mx], a_in[k])) mx = k; if (!lt(c, a_in[k], a_in[mxl])) mxl = k; } \
-    FORK(k, L, n) if (!dec) { if (k >= m) dec = 1; else if (lt(c, a_in[k], b_in[k])) { lex = 1; dec = 1; } else if (lt(c, b_in[k], a_in[k])) dec = 1; } if (!dec && n < m) lex = 1; \
     VF_ASSERT(ip_is_sorted_until(a, a + n, c) == a + su, "is_sorted_until(comp) returns the first i with comp(*i, *(i - 1)) != 0, else last"); \
     VF_ASSERT(ip_is_sorted(a, a + n, c) == (su == n), "is_sorted(comp)"); \
     VF_ASSERT(ip_min_element(a, a + n, c) == a + mn, "min_element(comp) returns the first smallest element (last for an empty range)"); \
     VF_ASSERT(ip_max_element(a, a + n, c) == a + mx, "max_element(comp) returns the first largest element (last for an empty range)"); \
     ip_minmax_element(a, a + n, c, &lo, &hi); \
     VF_ASSERT(lo == a + mn && hi == a + mxl, "minmax_element(comp) returns the first smallest and the LAST largest element"); \
-    VF_ASSERT(ip_lexicographical_compare(a, a + n, b, b + m, c) == lex, "lexicographical_compare(comp): decided by the first pair with comp(x, y) != 0 or comp(y, x) != 0, else by the lengths"); \
     FORK(k, L, n) VF_ASSERT(a[k] == a_in[k], "non-modifying algorithms leave the range unchanged"); } \
   VF_REACH(); }
-/* binary searches on a range sorted with respect to comp; min / max / minmax / clamp with comp */
-#define B_IP_BOUNDS(L) { LEN(n, L); SEL(c, 0, 2); VF_INPUT(int, v); VF_INPUT(int, x); VF_INPUT(int, y); IN(int, a, L); \
+/* lexicographical_compare with a comparator returning int */
+#define B_IP_LEX(L) { LEN(n, L); LEN(m, L); SEL(c, 0, 2); IN(int, a, L); IN(int, b, L); \
+  SPLIT(c, 2) SPLIT(n, L) SPLIT(m, L) { MK(int, a, n, L); MK(int, b, m, L); _Bool lex = 0, dec = 0; \
+    FORK(k, L, n) if (!dec) { if (k >= m) dec = 1; else if (lt(c, a_in[k], b_in[k])) { lex = 1; dec = 1; } else if (lt(c, b_in[k], a_in[k])) dec = 1; } if (!dec && n < m) lex = 1; \
+    VF_ASSERT(ip_lexicographical_compare(a, a + n, b, b + m, c) == lex, "lexicographical_compare(comp): decided by the first pair with comp(x, y) != 0 or comp(y, x) != 0, else by the lengths"); } \
+  VF_REACH(); }
+/* binary searches with a comparator returning int on a range sorted with respect to it */
+#define B_IP_BOUNDS(L) { LEN(n, L); SEL(c, 0, 2); VF_INPUT(int, v); IN(int, a, L); \
   SPLIT(c, 2) SPLIT(n, L) { MK(int, a, n, L); ASSUME_SORTED(c, a_in, n, L, ); int lb = n, ub = n; int *lo, *hi; \
     for (int k = (L) - 1; k >= 0; --k) if (k < n) { if (!lt(c, a_in[k], v)) lb = k; if (lt(c, v, a_in[k])) ub = k; } \
     VF_ASSERT(ip_lower_bound(a, a + n, &v, c) == a + lb, "lower_bound(comp) returns the first element with comp(x, value) == 0, else last"); \
     VF_ASSERT(ip_upper_bound(a, a + n, &v, c) == a + ub, "upper_bound(comp) returns the first element with comp(value, x) != 0, else last"); \
     ip_equal_range(a, a + n, &v, c, &lo, &hi); VF_ASSERT(lo == a + lb && hi == a + ub, "equal_range(comp) returns {lower_bound, upper_bound}"); \
     VF_ASSERT(ip_binary_search(a, a + n, &v, c) == (lb < ub), "binary_search(comp): true iff an element equivalent to value exists"); \
-    VF_ASSERT(ip_min(&x, &y, c) == (lt(c, y, x) ? &y : &x), "min(a, b, comp) returns b if comp(b, a) != 0, else a"); \
-    VF_ASSERT(ip_max(&x, &y, c) == (lt(c, x, y) ? &y : &x), "max(a, b, comp) returns b if comp(a, b) != 0, else a"); \
-    ip_minmax(&x, &y, c, &lo, &hi); VF_ASSERT(lo == (lt(c, y, x) ? &y : &x) && hi == (lt(c, y, x) ? &x : &y), "minmax(a, b, comp) returns {b, a} if comp(b, a) != 0, else {a, b}"); \
-    if (!lt(c, y, x)) VF_ASSERT(ip_clamp(&v, &x, &y, c) == (lt(c, v, x) ? &x : (lt(c, y, v) ? &y : &v)), "clamp(v, lo, hi, comp) returns lo if comp(v, lo) != 0, hi if comp(hi, v) != 0, else v"); \
     FORK(k, L, n) VF_ASSERT(a[k] == a_in[k], "non-modifying algorithms leave the range unchanged"); } \
   VF_REACH(); }
 
 /* ---- groups: hm_* / ip_* quick (len<=4 unless stated), *_t the tier=thorough twins */
-/*@GROUP name=hm_remove props=C06,C01,C02 kind=B bound=len<=4 unwind=7 solver=kissat objbits=12 timeout=600@*/
+/*@GROUP name=hm_remove props=C06,C02 kind=B bound=len<=4 unwind=7 solver=kissat objbits=12 timeout=600@*/
 void h_hm_remove(void) B_HM_REMOVE(4)
-/*@GROUP name=hm_remove_t props=C06,C01,C02 kind=B bound=len<=6 unwind=9 solver=kissat tier=thorough objbits=13 timeout=3000@*/
+/*@GROUP name=hm_remove_t props=C06,C02 kind=B bound=len<=6 unwind=9 solver=kissat tier=thorough objbits=13 timeout=3000@*/
 void h_hm_remove_t(void) B_HM_REMOVE(6)
 /*@GROUP name=hm_unique props=C06,C02 kind=B bound=len<=4 unwind=7 solver=kissat objbits=12 timeout=600@*/
 void h_hm_unique(void) B_HM_UNIQUE(4)
@@ -801,8 +810,8 @@ void h_hm_partition(void) B_HM_PARTITION(4)
 void h_hm_partition_t(void) B_HM_PARTITION(6)
 /*@GROUP name=hm_stable_partition props=C06,C02 kind=B bound=len<=3,predicates_2_and_3 unwind=7 solver=kissat objbits=12 timeout=600@*/
 void h_hm_stable_partition(void) B_HM_STABLE_PARTITION(3, 2, VF_KNOWN(C06_stable_partition_adds_predicate, p <= 2 && cnt > 0))
-/*@GROUP name=hm_stable_partition_t props=C06,C02 kind=B bound=len<=5 unwind=8 solver=kissat tier=thorough objbits=13 timeout=3000@*/
-void h_hm_stable_partition_t(void) B_HM_STABLE_PARTITION(5, 0, VF_KNOWN(C06_stable_partition_adds_predicate, p <= 2 && cnt > 0))
+/*@GROUP name=hm_stable_partition_t props=C06,C02 kind=B bound=len<=4 unwind=7 solver=kissat tier=thorough objbits=13 timeout=3000@*/
+void h_hm_stable_partition_t(void) B_HM_STABLE_PARTITION(4, 0, VF_KNOWN(C06_stable_partition_adds_predicate, p <= 2 && cnt > 0))
 /*@GROUP name=hm_swaps props=C06,C02 kind=B bound=len<=4 unwind=7 solver=kissat objbits=12 timeout=600@*/
 void h_hm_swaps(void) B_HM_SWAPS(4)
 /*@GROUP name=hm_swaps_t props=C06,C02 kind=B bound=len<=6 unwind=9 solver=kissat tier=thorough objbits=13 timeout=3000@*/
@@ -813,8 +822,8 @@ void h_hm_move(void) B_HM_MOVE(4)
 void h_hm_move_t(void) B_HM_MOVE(6)
 /*@GROUP name=hm_inplace_merge props=C06,C02 kind=B bound=len<=3,comparators_2_and_4 unwind=9 solver=kissat objbits=12 timeout=600@*/
 void h_hm_inplace_merge(void) B_HM_INPLACE_MERGE(3, 2, 4)
-/*@GROUP name=hm_inplace_merge_t props=C06,C02 kind=B bound=len<=5 unwind=13 solver=kissat tier=thorough objbits=13 timeout=3000@*/
-void h_hm_inplace_merge_t(void) B_HM_INPLACE_MERGE(5, 0, 4)
+/*@GROUP name=hm_inplace_merge_t props=C06,C02 kind=B bound=len<=4 unwind=11 solver=kissat tier=thorough objbits=13 timeout=3000@*/
+void h_hm_inplace_merge_t(void) B_HM_INPLACE_MERGE(4, 0, 4)
 /*@GROUP name=hm_sort props=C06,C02 kind=B bound=len<=3 unwind=12 solver=kissat objbits=12 timeout=600@*/
 void h_hm_sort(void) B_HM_SORT(3, hm_sort, 0, 0)
 /*@GROUP name=hm_sort_t props=C06,C02 kind=B bound=len<=4 unwind=19 solver=kissat tier=thorough objbits=13 timeout=3000@*/
@@ -841,13 +850,13 @@ void h_hm_insertion_sort(void) B_HM_SORT(4, hm_insertion_sort, 0, 1)
 void h_hm_insertion_sort_t(void) B_HM_SORT(6, hm_insertion_sort, 0, 1)
 /*@GROUP name=hm_merge_sort props=C06,C02 kind=B bound=len<=3 unwind=6 solver=kissat objbits=12 timeout=600@*/
 void h_hm_merge_sort(void) B_HM_SORT(3, hm_merge_sort, 0, 1)
-/*@GROUP name=hm_merge_sort_t props=C06,C02 kind=B bound=len<=5 unwind=8 solver=kissat tier=thorough objbits=13 timeout=3000@*/
-void h_hm_merge_sort_t(void) B_HM_SORT(5, hm_merge_sort, 0, 1)
+/*@GROUP name=hm_merge_sort_t props=C06,C02 kind=B bound=len<=4 unwind=7 solver=kissat tier=thorough objbits=13 timeout=3000@*/
+void h_hm_merge_sort_t(void) B_HM_SORT(4, hm_merge_sort, 0, 1)
 /*@GROUP name=hm_partial_sort props=C06,C02 kind=B bound=len<=3 unwind=12 solver=kissat objbits=12 timeout=600@*/
 void h_hm_partial_sort(void) B_HM_PARTIAL_SORT(3)
 /*@GROUP name=hm_partial_sort_t props=C06,C02 kind=B bound=len<=4 unwind=19 solver=kissat tier=thorough objbits=13 timeout=3000@*/
 void h_hm_partial_sort_t(void) B_HM_PARTIAL_SORT(4)
-/*@GROUP name=hm_erase props=C06,C01,C02 kind=K unwind=7 solver=kissat objbits=12 timeout=600@*/
+/*@GROUP name=hm_erase props=C01,C06,C02 kind=K unwind=7 solver=kissat objbits=12 timeout=600@*/
 void h_hm_erase(void) B_HM_ERASE()
 /*@GROUP name=ip_query props=C06,C02 kind=B bound=len<=4 unwind=7 solver=kissat objbits=12 timeout=600@*/
 void h_ip_query(void) B_IP_QUERY(4)
@@ -861,18 +870,33 @@ void h_ip_copy_t(void) B_IP_COPY(6)
 void h_ip_remove_partition(void) B_IP_REMOVE_PARTITION(4)
 /*@GROUP name=ip_remove_partition_t props=C06,C02 kind=B bound=len<=6 unwind=9 solver=kissat tier=thorough objbits=13 timeout=3000@*/
 void h_ip_remove_partition_t(void) B_IP_REMOVE_PARTITION(6)
-/*@GROUP name=ip_pairs props=C06,C02 kind=B bound=len<=4 unwind=7 solver=kissat objbits=12 timeout=600@*/
-void h_ip_pairs(void) B_IP_PAIRS(4)
-/*@GROUP name=ip_pairs_t props=C06,C02 kind=B bound=len<=6 unwind=9 solver=kissat tier=thorough objbits=14 timeout=3000@*/
-void h_ip_pairs_t(void) B_IP_PAIRS(6)
+/*@GROUP name=ip_adjacent props=C06,C02 kind=B bound=len<=4 unwind=7 solver=kissat objbits=12 timeout=600@*/
+void h_ip_adjacent(void) B_IP_ADJACENT(4)
+/*@GROUP name=ip_adjacent_t props=C06,C02 kind=B bound=len<=6 unwind=9 solver=kissat tier=thorough objbits=13 timeout=3000@*/
+void h_ip_adjacent_t(void) B_IP_ADJACENT(6)
+/*@GROUP name=ip_equal props=C06,C02 kind=B bound=len1<=4,len2<=4 unwind=7 solver=kissat objbits=12 timeout=600@*/
+void h_ip_equal(void) B_IP_EQUAL(4)
+/*@GROUP name=ip_equal_t props=C06,C02 kind=B bound=len1<=6,len2<=6 unwind=9 solver=kissat tier=thorough objbits=14 timeout=3000@*/
+void h_ip_equal_t(void) B_IP_EQUAL(6)
 /*@GROUP name=ip_order props=C06,C02 kind=B bound=len<=4 unwind=7 solver=kissat objbits=12 timeout=600@*/
 void h_ip_order(void) B_IP_ORDER(4)
-/*@GROUP name=ip_order_t props=C06,C02 kind=B bound=len<=6 unwind=9 solver=kissat tier=thorough objbits=14 timeout=3000@*/
+/*@GROUP name=ip_order_t props=C06,C02 kind=B bound=len<=6 unwind=9 solver=kissat tier=thorough objbits=13 timeout=3000@*/
 void h_ip_order_t(void) B_IP_ORDER(6)
-/*@GROUP name=ip_bounds props=C06,C02 kind=B bound=len<=4 unwind=7 solver=kissat objbits=12 timeout=600@*/
-void h_ip_bounds(void) B_IP_BOUNDS(4)
-/*@GROUP name=ip_bounds_t props=C06,C02 kind=B bound=len<=6 unwind=9 solver=kissat tier=thorough objbits=13 timeout=3000@*/
-void h_ip_bounds_t(void) B_IP_BOUNDS(6)
+/*@GROUP name=ip_lex props=C06,C02 kind=B bound=len1<=4,len2<=4 unwind=7 solver=kissat objbits=12 timeout=600@*/
+void h_ip_lex(void) B_IP_LEX(4)
+/*@GROUP name=ip_lex_t props=C06,C02 kind=B bound=len1<=6,len2<=6 unwind=9 solver=kissat tier=thorough objbits=14 timeout=3000@*/
+void h_ip_lex_t(void) B_IP_LEX(6)
+/*@GROUP name=ip_bounds props=C06,C02 kind=B bound=len<=3 unwind=6 solver=kissat objbits=12 timeout=600@*/
+void h_ip_bounds(void) B_IP_BOUNDS(3)
+/*@GROUP name=ip_bounds_t props=C06,C02 kind=B bound=len<=5 unwind=8 solver=kissat tier=thorough objbits=13 timeout=3000@*/
+void h_ip_bounds_t(void) B_IP_BOUNDS(5)
+/*@GROUP name=ip_minmax props=C06,C02 kind=F unwind=2 timeout=600@*/
+void h_ip_minmax(void) { SEL(c, 0, 2); VF_INPUT(int, v); VF_INPUT(int, x); VF_INPUT(int, y); int *lo, *hi;
+  VF_ASSERT(ip_min(&x, &y, c) == (lt(c, y, x) ? &y : &x), "min(a, b, comp) returns b if comp(b, a) != 0, else a");
+  VF_ASSERT(ip_max(&x, &y, c) == (lt(c, x, y) ? &y : &x), "max(a, b, comp) returns b if comp(a, b) != 0, else a");
+  ip_minmax(&x, &y, c, &lo, &hi); VF_ASSERT(lo == (lt(c, y, x) ? &y : &x) && hi == (lt(c, y, x) ? &x : &y), "minmax(a, b, comp) returns {b, a} if comp(b, a) != 0, else {a, b}");
+  if (!lt(c, y, x)) VF_ASSERT(ip_clamp(&v, &x, &y, c) == (lt(c, v, x) ? &x : (lt(c, y, v) ? &y : &v)), "clamp(v, lo, hi, comp) returns lo if comp(v, lo) != 0, hi if comp(hi, v) != 0, else v");
+  VF_REACH(); }
 /*@GROUP name=ip_search props=C06,C02 kind=B bound=len<=4,needle<=4 unwind=7 solver=kissat objbits=12 timeout=600@*/
 void h_ip_search(void) B_SEARCH(4, ip_search, 0, 1)
 /*@GROUP name=ip_find_end props=C06,C02 kind=B bound=len<=4,needle<=4 unwind=7 solver=kissat objbits=12 timeout=600@*/
@@ -895,9 +919,9 @@ void h_ip_set_intersection(void) B_SETOP(2, OP_INTER, ip_set_op(1, a, a + na, b,
 void h_ip_set_difference(void) B_SETOP(2, OP_DIFF, ip_set_op(2, a, a + na, b, b + nb, d, c), "set_difference", 0, 2)
 /*@GROUP name=ip_set_symmetric_difference props=C06,C02 kind=B bound=len1<=2,len2<=2 unwind=7 solver=kissat objbits=12 timeout=600@*/
 void h_ip_set_symmetric_difference(void) B_SETOP(2, OP_SYM, ip_set_op(3, a, a + na, b, b + nb, d, c), "set_symmetric_difference", 0, 2)
-/*@GROUP name=ip_set_ops_t props=C06,C02 kind=B bound=len1<=4,len2<=4 unwind=11 solver=kissat tier=thorough objbits=13 timeout=3000@*/
+/*@GROUP name=ip_set_ops_t props=C06,C02 kind=B bound=len1<=3,len2<=3 unwind=9 solver=kissat tier=thorough objbits=13 timeout=3000@*/
 void h_ip_set_ops_t(void) { VF_INPUT(unsigned char, which); VF_ASSUME(which <= 3);
-  if (which == 0) B_SETOP(4, OP_UNION, ip_set_op(0, a, a + na, b, b + nb, d, c), "set_union", 0, 2)
-  else if (which == 1) B_SETOP(4, OP_INTER, ip_set_op(1, a, a + na, b, b + nb, d, c), "set_intersection", 0, 2)
-  else if (which == 2) B_SETOP(4, OP_DIFF, ip_set_op(2, a, a + na, b, b + nb, d, c), "set_difference", 0, 2)
-  else B_SETOP(4, OP_SYM, ip_set_op(3, a, a + na, b, b + nb, d, c), "set_symmetric_difference", 0, 2) }
+  if (which == 0) B_SETOP(3, OP_UNION, ip_set_op(0, a, a + na, b, b + nb, d, c), "set_union", 0, 2)
+  else if (which == 1) B_SETOP(3, OP_INTER, ip_set_op(1, a, a + na, b, b + nb, d, c), "set_intersection", 0, 2)
+  else if (which == 2) B_SETOP(3, OP_DIFF, ip_set_op(2, a, a + na, b, b + nb, d, c), "set_difference", 0, 2)
+  else B_SETOP(3, OP_SYM, ip_set_op(3, a, a + na, b, b + nb, d, c), "set_symmetric_difference", 0, 2) }
